@@ -69,6 +69,7 @@ class SMMapSet(
         sms = super(SMMapSet, self).rate(by=by)
         sms.sample_start /= by
         sms.sample_length /= by
-        sms.offset /= by
+        if sms.offset is not None:
+            sms.offset /= by
 
         return sms
